@@ -1131,8 +1131,8 @@ async def async_fifo_stream(
                     try:
                         xx = preprocessor(x)
                     except Exception as e:
-                        fut = asyncio.Future()
-                        fut.set_exception(e)
+                        t = asyncio.Future()
+                        t.set_exception(e)
                     else:
                         t = await func(xx, **func_kwargs)
                 await tasks.put((x, t))
